@@ -157,7 +157,7 @@ def joinParts (parts : List (List Char)) : List Char := [':'].intercalate parts
 def atnOk (parts : List (List Char)) : Bool :=
   (trim (joinParts parts) == joinParts parts) && parts.all (fun p => isValidSubId (trim p))
 
-/-- `AccountTrees::build_account_tree` (after the fix of F18: `AccountTreeNode::from(parent)?`): every
+/-- `AccountTrees::build_account_tree` (after the fix of F21: `AccountTreeNode::from(parent)?`): every
     ancestor that has to be created is valid (an ancestor that already exists was validated when created) -/
 def ancestorsOk : Nat → List (List Char) → Bool
   | 0, _ => true
